@@ -70,13 +70,15 @@ func (s *SimpleAuthCtx) check(streamName string, urlParam string) error {
 	if v == "" {
 		return base.ErrSimpleAuthParamNotFound
 	}
-	v = strings.ToLower(v)
 
 	// 注意，只有DangerousLalSecret配置了值，才验证参数是否和DangerousLalSecret相等
+	// DangerousLalSecret是任意字符串，原样比较（大小写敏感）
 	if len(s.config.DangerousLalSecret) != 0 && v == s.config.DangerousLalSecret {
 		return nil
 	}
 
+	// md5值的十六进制串大小写不敏感
+	v = strings.ToLower(v)
 	se := SimpleAuthCalcSecret(s.config.Key, streamName)
 	if v == se {
 		return nil
